@@ -47,8 +47,6 @@ type c07Scenario struct {
 	Producers [][]c07Op     `json:"producers"`
 	Consumers [][]c07Op     `json:"consumers"`
 	Fill      bool          `json:"fill_only"`
-	Shrink    bool          `json:"buffer_maximum_lowered_on_the_live_queue,omitempty"`
-	ShrinkTo  int           `json:"lowered_to,omitempty"`
 	Settle    string        `json:"settle_calls"` // mixed | poll | take-timeout: what the main thread repeats after the producers stopped
 	TakeRace  bool          `json:"take_race,omitempty"`
 
@@ -83,15 +81,8 @@ func genC07(t *simrt.Tape, tier string) Scenario {
 		}
 		return 0
 	}
-	if sc.Kind == "buffered" && t.Bool(1, 12) {
-		// flavour: one producer, a backlog in the overflow buffer, then the buffer maximum is lowered to 0 (or below)
-		// on the live queue: what was accepted still comes out, in order, whatever is offered meanwhile
-		sc.Shrink = true
-		sc.Cap = 1 + t.Choose(2)
-		sc.BufMax = 2 + t.Choose(3)
-		sc.ShrinkTo = []int{0, -1, 1}[t.Choose(3)]
-		return sc
-	}
+	// (a flavour that lowered the buffer maximum on the live queue, below its content, was tried for seeded change C07v and
+	// withdrawn: C07 quantifies over configurations, not over re-configuration in use - same reasoning as for C07r, DESIGN.md §9, 18)
 	if t.Bool(1, 10) {
 		sc.Fill = true
 		n := sc.Cap + sc.BufMax + 2
@@ -256,10 +247,6 @@ func (sc *c07Scenario) Run(s *simrt.Sim) {
 		}
 		return nil
 	}
-	if sc.Shrink {
-		sc.runShrink(s, bq, do)
-		return
-	}
 	var prods []*simrt.Thread
 	for p, ops := range sc.Producers {
 		p, ops := p, ops
@@ -387,58 +374,6 @@ func (sc *c07Scenario) Nontrivial(res *simrt.Result) bool {
 	return sc.probes["producer-consumer-overlap"] > 0 || sc.probes["overflow-certainly-used"] > 0
 }
 
-// runShrink: a single producer builds a backlog, the buffer maximum is lowered on the live queue, a consumer and the
-// producer go on; everything accepted comes out exactly once and in the order it was accepted.
-func (sc *c07Scenario) runShrink(s *simrt.Sim, bq *fpgo.BufferedChannelQueue[int], do func(name string, op c07Op, v int) *Op) {
-	var accepted, got []int
-	next := 1
-	offer := func() {
-		if op := do("prod0", c07Op{Kind: "Offer"}, next); op.Panic == "" && op.Err == nil {
-			accepted = append(accepted, next)
-		}
-		next++
-	}
-	for i := 0; i < sc.Cap+2; i++ {
-		offer()
-	}
-	sc.h.Do("main", "SetBufferSizeMaximum", sc.ShrinkTo, func() (interface{}, error) { bq.SetBufferSizeMaximum(sc.ShrinkTo); return nil, nil })
-	patience := 20 * time.Millisecond
-	recv := func(kind string) bool {
-		op := do("cons0", c07Op{Kind: kind, D: patience}, 0)
-		if op.Panic == "" && op.Err == nil {
-			got = append(got, op.Val.(int))
-			return true
-		}
-		return false
-	}
-	prod := s.Go("prod0", func() {
-		for i := 0; i < 3; i++ {
-			s.Yield()
-			offer()
-		}
-	})
-	cons := s.Go("cons0", func() {
-		recv("TakeWithTimeout")
-		s.Yield()
-		recv([]string{"Poll", "GetChannelRecv"}[sc.Cap%2])
-	})
-	s.WaitUntilTimeout(func() bool { return prod.Done() && cons.Done() }, time.Minute)
-	s.SetFair(true)
-	patience = 3*sc.LoadDur + time.Millisecond // the loader moves the backlog one pass per interval
-	for i, idle := 0, 0; i < 400 && idle < 6 && len(got) < len(accepted); i++ {
-		if recv("TakeWithTimeout") {
-			idle = 0
-		} else {
-			idle++
-		}
-	}
-	if fmt.Sprint(got) != fmt.Sprint(accepted) {
-		sc.extra = append(sc.extra, Violation{Clause: "fifo", Fingerprint: "buffered:order-or-content-after-the-buffer-maximum-was-lowered",
-			Detail: fmt.Sprintf("single producer, capacity %d, buffer maximum %d lowered to %d with a backlog buffered: accepted %v, received %v (want the same sequence)", sc.Cap, sc.BufMax, sc.ShrinkTo, accepted, got)})
-	}
-	sc.probes["buffer-maximum-lowered-on-a-live-queue"]++
-}
-
 func (sc *c07Scenario) Check(res *simrt.Result) []Violation {
 	var vs []Violation
 	vs = append(vs, goroutinePanics(res)...)
@@ -458,9 +393,6 @@ func (sc *c07Scenario) Check(res *simrt.Result) []Violation {
 		return dedupe(vs) // after a panic the counting oracles are meaningless
 	}
 	vs = append(vs, sc.extra...)
-	if sc.Shrink {
-		return dedupe(vs) // (judged where it ran: runShrink)
-	}
 	bound := sc.Cap
 	if sc.BufMax > 0 {
 		bound += sc.BufMax
